@@ -1252,3 +1252,94 @@ Proof.
   exists s'. split; [exact E|]. split; [exact B|]. split; [exact C|]. split; [exact D|]. split; [exact F|]. split; [exact (G Hnd)|].
   intros t r c Hin. split; [apply A; exact Hin | apply Hval; apply A; exact Hin].
 Qed.
+
+(* ------------------------------------------------------------------ *)
+(* (7) failures the backend has shown to the loop are counted             *)
+(* ------------------------------------------------------------------ *)
+Lemma set_key_keys {A} t (v : A) l : NoDup (map fst l) -> NoDup (map fst (set_key t v l)) /\
+  forall k, In k (map fst (set_key t v l)) <-> k = t \/ In k (map fst l).
+Proof.
+  induction l as [|[k w] l IH]; cbn; intro H.
+  - split; [constructor; [tauto | constructor] | intro k; intuition].
+  - inversion H as [|? ? Hni Hnd]; subst. destruct (k =? t) eqn:E; cbn.
+    + assert (k = t) by lia. subst. split; [constructor; assumption | intro k; intuition].
+    + destruct (IH Hnd) as [X Y]. split.
+      * constructor; [rewrite Y; intros [->|Hin]; [lia | tauto] | exact X].
+      * intro k0. rewrite Y. intuition.
+Qed.
+Lemma results_loop_nodup statuses results : forall ps, NoDup (map fst (done ps)) -> NoDup (map fst (done (results_loop statuses results ps))).
+Proof.
+  induction results as [|[t d] rest IH]; intros ps H; cbn [results_loop]; [exact H|].
+  destruct (lookup t (done ps)); [apply IH; exact H|]. apply IH. destruct d; cbn [done]; try exact H; apply set_key_keys; exact H.
+Qed.
+Lemma head_step_nodup t st ps : NoDup (map fst (done ps)) -> NoDup (map fst (done (head_step t st ps))).
+Proof.
+  intro H. destruct st; cbn; try exact H; try (apply set_key_keys; exact H).
+  destruct (mem_Z t (sched_stopped ps)); cbn; [exact H | apply set_key_keys; exact H].
+Qed.
+Lemma status_loop_nodup statuses : forall ps, NoDup (map fst (done ps)) -> NoDup (map fst (done (status_loop statuses ps))).
+Proof.
+  induction statuses as [|[t st] rest IH]; intros ps H; [exact H|]. rewrite status_loop_cons. apply IH. apply head_step_nodup. exact H.
+Qed.
+Lemma poll_done_nodup p : NoDup (map fst (poll_done p)).
+Proof.
+  destruct p as [[sts res] ss]. unfold poll_done, update_running_trials. apply status_loop_nodup. apply results_loop_nodup. constructor.
+Qed.
+
+Lemma status_loop_lookup_other t statuses : forall ps, ~ In t (map fst statuses) ->
+  lookup t (done (status_loop statuses ps)) = lookup t (done ps).
+Proof.
+  induction statuses as [|[t' st] rest IH]; intros ps H; [reflexivity|]. rewrite status_loop_cons. cbn in H.
+  rewrite IH by tauto. apply head_step_other. intro E. apply H. left. congruence.
+Qed.
+(* a trial the backend shows as failed is recorded as failed for this poll, whatever the scheduler answered
+   for its new results in the same batch *)
+Lemma poll_failed_recorded statuses results ss t : NoDup (map fst statuses) -> In (t, S_Failed) statuses ->
+  lookup t (poll_done (statuses, results, ss)) = Some S_Failed.
+Proof.
+  unfold poll_done, update_running_trials. generalize (results_loop statuses results {| done := []; sched_stopped := ss; calls := [] |}).
+  induction statuses as [|[t' st] rest IH]; intros ps Hnd Hin; [destruct Hin|]. rewrite status_loop_cons.
+  cbn in Hnd. inversion Hnd as [|? ? Hni Hnd']; subst. destruct Hin as [E|Hin].
+  - inversion E; subst. rewrite (status_loop_lookup_other t rest _ Hni). cbn. apply lookup_set_key_same.
+  - apply IH; assumption.
+Qed.
+
+Lemma update_dict_nodup new : forall acc, NoDup (map fst acc) -> NoDup (map fst (update_dict acc new)).
+Proof. induction new as [|[t s] new IH]; intros acc H; cbn; [exact H|]. apply IH. apply set_key_keys. exact H. Qed.
+Lemma accumulate_nodup dones : NoDup (map fst (accumulate dones)).
+Proof.
+  unfold accumulate. assert (H : NoDup (map fst (@nil (Z * status)))) by constructor. revert H. generalize (@nil (Z * status)).
+  induction dones as [|d dones IH]; intros acc H; cbn; [exact H|]. apply IH. apply update_dict_nodup. exact H.
+Qed.
+
+Lemma failed_count_lower (F : list Z) ds : NoDup F -> (forall t, In t F -> In (t, S_Failed) ds) -> (length F <= num_failed ds)%nat.
+Proof.
+  intros HF Hin. unfold num_failed. rewrite <- (map_length (fun t => (t, S_Failed)) F). apply NoDup_incl_length.
+  - clear Hin. induction F as [|a F IH]; cbn; [constructor|]. inversion HF; subst. constructor; [|auto].
+    intro H. apply in_map_iff in H as [x [E Hx]]. inversion E; subst. tauto.
+  - intros x Hx. apply in_map_iff in Hx as [t [<- Ht]]. apply filter_In. split; [apply Hin; exact Ht | reflexivity].
+Qed.
+
+(* ground truth: [F] = distinct trials the backend showed as failed in some poll and that do not finish again in a
+   later poll (a failed trial that is resumed is the subject of finding F-C13-1) *)
+Definition shown_failed_last (polls : list poll_in) (t : Z) : Prop :=
+  exists pre sts res ss post, polls = pre ++ (sts, res, ss) :: post /\ NoDup (map fst sts) /\ In (t, S_Failed) sts /\
+    forall p, In p post -> ~ In t (map fst (poll_done p)).
+
+Lemma shown_failure_in_dict polls t : shown_failed_last polls t -> In (t, S_Failed) (accumulate (map poll_done polls)).
+Proof.
+  intros [pre [sts [res [ss [post [-> [Hnd [Hin Hpost]]]]]]]]. rewrite map_app. cbn [map].
+  apply (failure_remembered t (map poll_done pre) (poll_done (sts, res, ss)) (map poll_done post)).
+  - apply poll_done_nodup.
+  - apply lookup_In. apply poll_failed_recorded; assumption.
+  - intros d Hd. apply in_map_iff in Hd as [p [<- Hp]]. apply Hpost. exact Hp.
+Qed.
+
+Lemma ground_truth_limit polls (F : list Z) mf : NoDup F -> (forall t, In t F -> shown_failed_last polls t) ->
+  (length F <= num_failed (accumulate (map poll_done polls)))%nat /\
+  ((mf < length F)%nat -> exists t', tuner_end mf polls = Some t' /\ In (t', S_Failed) (accumulate (map poll_done polls))).
+Proof.
+  intros HF HS. assert (HL : (length F <= num_failed (accumulate (map poll_done polls)))%nat).
+  { apply failed_count_lower; [exact HF|]. intros t Ht. apply shown_failure_in_dict. apply HS. exact Ht. }
+  split; [exact HL|]. intro Hmf. unfold tuner_end. apply limit_names. lia.
+Qed.
